@@ -91,6 +91,8 @@ class Symb:
       base = a[0]
       if a[1] in ('T',):
         return self.f('transpose', self.conv(base))
+      if a[1] == 'ndim':
+        return self.f('py_len', self.conv(T('attr', base, 'shape')))       # x.ndim is len(x.shape)
       path = self._path(t)
       if path is not None:
         return self.symbol(path)
